@@ -48,16 +48,16 @@ Section Sim.
         | Some (m, n0) => let '(mk', cl) := wsim cur (m3_del ri mk3) r in (mk', (ri, cur, n0) :: cl)
         end
     end.
-  Lemma wsim_items cur : forall ris mk3, fst (ring_items (proj3 mk3) ris) = proj3 (fst (wsim cur mk3 ris)).
+  Lemma wsim_items cur : forall ris a mk3, fst (ring_items a (proj3 mk3) ris) = proj3 (fst (wsim cur mk3 ris)).
   Proof.
-    induction ris as [|ri r IH]; intros mk3; [reflexivity|]. cbn [RingRead.ring_items wsim]. rewrite proj3_get.
+    induction ris as [|ri r IH]; intros a mk3; [reflexivity|]. cbn [RingRead.ring_items wsim]. rewrite proj3_get.
     destruct (m3_get ri mk3) as [[m n0]|]; cbn [option_map fst].
-    - rewrite proj3_del. specialize (IH (m3_del ri mk3)).
-      destruct (ring_items (proj3 (m3_del ri mk3)) r). destruct (wsim cur (m3_del ri mk3) r). exact IH.
-    - rewrite proj3_snd.
-      specialize (IH (mk3 ++ [(ri, get_ring_marker (map m3_m mk3), cur)])).
+    - rewrite proj3_del. specialize (IH (a || (10 <=? m)%nat) (m3_del ri mk3)).
+      destruct (ring_items (a || (10 <=? m)%nat) (proj3 (m3_del ri mk3)) r). destruct (wsim cur (m3_del ri mk3) r). exact IH.
+    - rewrite proj3_snd. set (a' := a || (10 <=? get_ring_marker (map m3_m mk3))%nat).
+      specialize (IH a' (mk3 ++ [(ri, get_ring_marker (map m3_m mk3), cur)])).
       unfold proj3 in IH at 1. rewrite map_app in IH. cbn [map m3_ri m3_m fst snd] in IH. fold (proj3 mk3) in IH.
-      destruct (ring_items (proj3 mk3 ++ [(ri, get_ring_marker (map m3_m mk3))]) r). exact IH.
+      destruct (ring_items a' (proj3 mk3 ++ [(ri, get_ring_marker (map m3_m mk3))]) r). exact IH.
   Qed.
 
   (** the reader's table as the image of the writer's *)
@@ -166,27 +166,27 @@ Section Sim.
   Lemma ok3_del mk3 ri : ok3 mk3 -> ok3 (m3_del ri mk3).
   Proof. intros [N1 N2]. unfold ok3, m3_del. split; now apply nodup_map_filter'. Qed.
 
-  Lemma ring_sync cur : forall ris mk3 L, ok3 mk3 ->
-    let items := snd (ring_items (proj3 mk3) ris) in
+  Lemma ring_sync cur : forall ris a mk3 L, ok3 mk3 ->
+    let items := snd (ring_items a (proj3 mk3) ris) in
     let '(mk3', cl) := wsim cur mk3 ris in
     cl_ok L cl = true ->
     ring_log cur L (rtof mk3) items = Some (L ++ map cl_op cl, rtof mk3') /\ ok3 mk3'.
   Proof.
-    induction ris as [|ri r IH]; intros mk3 L Hok; cbn [RingRead.ring_items wsim].
+    induction ris as [|ri r IH]; intros a mk3 L Hok; cbn [RingRead.ring_items wsim].
     - cbn. intros _. now rewrite app_nil_r.
     - rewrite proj3_get. destruct (m3_get ri mk3) as [[m n0]|] eqn:Hg; cbn [option_map fst].
-      + rewrite proj3_del. specialize (IH (m3_del ri mk3) (L ++ [cl_op (ri, cur, n0)]) (ok3_del mk3 ri Hok)).
-        destruct (ring_items (proj3 (m3_del ri mk3)) r) as [mk2 it2]. cbn [snd] in *.
+      + rewrite proj3_del. specialize (IH (a || (10 <=? m)%nat) (m3_del ri mk3) (L ++ [cl_op (ri, cur, n0)]) (ok3_del mk3 ri Hok)).
+        destruct (ring_items (a || (10 <=? m)%nat) (proj3 (m3_del ri mk3)) r) as [mk2 it2]. cbn [snd] in *.
         destruct (wsim cur (m3_del ri mk3) r) as [mk3' cl]. cbn [cl_ok fst snd]. intros H.
         apply andb_prop in H as [H H4]. apply andb_prop in H as [H H3]. apply andb_prop in H as [H1 H2].
         cbn [ring_log]. rewrite mrep_val. destruct (rtof_get ri m n0 mk3 Hok Hg) as [G1 G2]. rewrite G1.
         apply negb_true_iff in H1, H2. rewrite H1, H2, H3. cbn [orb negb]. rewrite G2.
         destruct (IH H4) as [A B]. unfold cl_op at 1 in A. cbn [fst snd] in A. rewrite A. split; [|exact B].
         cbn [map]. rewrite <- app_assoc. reflexivity.
-      + rewrite proj3_snd.
-        specialize (IH (mk3 ++ [(ri, get_ring_marker (map m3_m mk3), cur)]) L (ok3_snoc mk3 ri cur Hok Hg)).
+      + rewrite proj3_snd. set (a' := a || (10 <=? get_ring_marker (map m3_m mk3))%nat).
+        specialize (IH a' (mk3 ++ [(ri, get_ring_marker (map m3_m mk3), cur)]) L (ok3_snoc mk3 ri cur Hok Hg)).
         unfold proj3 in IH at 1. rewrite map_app in IH. cbn [map m3_ri m3_m fst snd] in IH. fold (proj3 mk3) in IH.
-        destruct (ring_items (proj3 mk3 ++ [(ri, get_ring_marker (map m3_m mk3))]) r) as [mk2 it2]. cbn [snd] in *.
+        destruct (ring_items a' (proj3 mk3 ++ [(ri, get_ring_marker (map m3_m mk3))]) r) as [mk2 it2]. cbn [snd] in *.
         destruct (wsim cur (mk3 ++ [(ri, get_ring_marker (map m3_m mk3), cur)]) r) as [mk3' cl]. intros H.
         cbn [ring_log]. rewrite mrep_val.
         rewrite rtof_get_fresh by (apply (get_ring_marker_spec (map m3_m mk3))).
